@@ -328,7 +328,8 @@ def factory_facts(prog: Program, rep: Report):
             for e in p.events:
                 if e[0] == "setitem" and e[1][0] == "dict":
                     idx, val = e[2], e[3]
-                    if own_param(prog, val) is None:
+                    xp = own_param(prog, val)
+                    if xp is None or xp[0] == "call":  # (a parameter *derived* from the loop's one -- param.replace(annotation=…) -- is not its own)
                         um_ok = False
                     um_term = val
                     if idx[0] == "index":
@@ -337,7 +338,7 @@ def factory_facts(prog: Program, rep: Report):
                         reg_name = True
             if um_term is None:
                 for e in p.events:
-                    if e[0] == "assign" and own_param(prog, e[2]) is not None:
+                    if e[0] == "assign" and own_param(prog, e[2]) is not None and own_param(prog, e[2])[0] != "call":
                         um_term = e[2]
             truth = None
             truth_call = None
